@@ -38,6 +38,8 @@ def jobs(tier):
 BOUNDS = {'quick': 'sources of 0-2 lines over the small menu; existing output absent or any ASCII bytes of length 0-5 (every tampering of a short '
                    'output: flip / truncate / extend / delete); option on/off; LF/CRLF',
           'thorough': 'all 2-line sources; existing output of length 0-8'}
+from . import project as _project
+BOUNDS = {k: v + _project.bounds_note('C06', k) for k, v in BOUNDS.items()}
 ASSUMPTIONS = ['D1-D12', 'std::fs / BufReader behaviour is a contract model (8 KiB reader buffer modelled)',
                '"never modifies" is established as "no mutating FS call on the output path" (inode / mtime follow by the OS contract)']
 COVERS_REQUIRED = ['deps_reported_Verify', 'verify_ok', 'verify_mismatch', 'verify_missing', 'verify_length_differs', 'verify_source_error']
